@@ -44,7 +44,14 @@ def regenerate(ctx):
   except py2v.Untranslatable as e:
     raise core.TieBroken('the validation/id-filling loops of doBulkAddOrReplace are outside the translated subset: %s' % e)
   ctx._c27_fragment = seg
-  core.write_if_changed(os.path.join(core.COQ, 'gen', 'RowIds_gen.v'), text)
+  path = os.path.join(core.COQ, 'gen', 'RowIds_gen.v')
+  if core.write_if_changed(path, text):
+    # never let a compiled translation of another tree survive (make compares time stamps only)
+    for ext in ('.vo', '.vos', '.vok', '.glob'):
+      try:
+        os.remove(path[:-2] + ext)
+      except OSError:
+        pass
 
 
 def fragment_fn(seg):
